@@ -10,7 +10,7 @@ offset, inds handling, box passed through unchanged)."""
 import z3
 
 from pyvc.contracts import Arr, Contract, Flt, Fn, Int, NoneSort, Tup
-from pyvc.values import (FIN, NONE, SBool, SFloat, SInt, SNone, And, Implies, Ite, Not, Or, forall)
+from pyvc.values import (FIN, NONE, SBool, SFloat, SInt, SNone, And, Implies, Ite, Not, Or, exists, forall)
 from .glue_rep import ListGeomArray, OUT, offs_of, rep_of, vals_of, well_formed
 from .glue_polygon import is_null, validity_ok
 from .c14_measures import AO, AV, AT, length_spec, area_spec, measure_spec
@@ -126,7 +126,16 @@ def register(reg):
         o0, o1, o2 = offs
         return MPOLY_MEETS(v.A, o1.A, o2.A, (o1.off + o0[slot]).z(), (o1.off + o0[slot + 1]).z(), *bx)
 
+    def v_mpoint(c, v, offs, slot, bx):
+        # the proved kernel's own spec: some vertex of the element lies in the closed box
+        o = offs[0]
+        lo_x, lo_y, hi_x, hi_y = [SFloat(FIN, t) for t in bx]
+        s0, e0 = o[slot], o[slot + 1]
+        return exists('int', lambda t: And(t >= s0, t + 1 < e0, (t - s0) % 2 == 0,
+                                           lo_x <= v[t], v[t] <= hi_x, lo_y <= v[t + 1], v[t + 1] <= hi_y)).z()
+
     G = 'spatialpandas/geometry/'
+    ib_contract(G + 'multipoint.py::MultiPointArray.intersects_bounds', 'MultiPointArray', 1, v_mpoint)
     ib_contract(G + 'line.py::LineArray.intersects_bounds', 'LineArray', 1, v_line)
     ib_contract(G + 'multiline.py::MultiLineArray.intersects_bounds', 'MultiLineArray', 2, v_two(MLINE_MEETS))
     ib_contract(G + 'polygon.py::PolygonArray.intersects_bounds', 'PolygonArray', 2, v_two(POLY_MEETS))
